@@ -4,7 +4,7 @@ from vt import detsched as ds, aosim, timersim
 ID = 'C10'
 ENGINE = 'detsched'
 TECHNIQUE = 'runtime monitoring under a deterministic cooperative scheduler with a virtual clock: the linearised queue-operation log is stamped with virtual time and compared with the ideal posting instants'
-RULE = ('a started ActiveObject with 1-4 concurrent timed sources (post_fifo/post_lifo with period in {0.01,0.05,0.1,1,2.5} and, for finite sources, also 0, times 0..6 - for times 0 in most cases with the repeat count LEFT OUT or passed as None, the documented heart-beat form - (a few sources: 257-300 postings, period 0 or 1 ms), deferred '
+RULE = ('a started ActiveObject with 1-4 concurrent timed sources (post_fifo/post_lifo with period in {0.01,0.05,0.1,1,2.5} and, for finite sources, also 0, times 0..6 (a quarter of the calls pass period, times and deferred BY POSITION in the documented order) - for times 0 in most cases with the repeat count LEFT OUT or passed as None, the documented heart-beat form - (a few sources: 257-300 postings, period 0 or 1 ms), deferred '
         'True/False/default, started at different virtual instants; in a fifth of the runs armed BEFORE start_at, the object being started up to 1.3 s later), real timer threads run by detsched, time.sleep replaced by a virtual '
         'clock. Instantaneous-computation runs (clock advances only when nothing is runnable): every posting instant must equal t0 + k*period '
         '(k from 1 if deferred else 0), the count at a horizon not on a period boundary must equal min(times, instants before the horizon) '
